@@ -272,7 +272,7 @@ pub proof fn axiom_popcount_below(x: u128, k: u128)
 pub open spec fn bit_set(x: u128, k: int) -> bool { (x >> (k as u128)) & 1u128 == 1u128 }
 
 impl DynamicTickArrayLoader {
-//@ const state/dynamic_tick_array.rs START_TICK_INDEX_OFFSET WHIRLPOOL_OFFSET TICK_BITMAP_OFFSET TICK_DATA_OFFSET
+//@ const state/dynamic_tick_array.rs pub START_TICK_INDEX_OFFSET WHIRLPOOL_OFFSET TICK_BITMAP_OFFSET TICK_DATA_OFFSET
     pub open spec fn vbitmap(&self) -> u128 { le_u128(sub16(self.0, 36)) }
 //@ fn state/dynamic_tick_array.rs tick_bitmap in=/^impl DynamicTickArrayLoader \{\n    fn byte_offset/ -> r
     ensures r == self.vbitmap(),
